@@ -750,6 +750,7 @@ func main() {
 		replay(o)
 		return
 	}
+	runNames(o, res, nil)
 	nHist, nCoin := 30, 8
 	if o.Tier == "thorough" {
 		nHist, nCoin = 200, 40
@@ -1051,6 +1052,17 @@ func replay(o *hx.Opts) {
 	b, err := os.ReadFile(o.Replay)
 	if err != nil {
 		hx.Fatal(err)
+	}
+	var nr struct {
+		Replay struct {
+			Names *NameCase `json:"names"`
+		} `json:"replay"`
+	}
+	if json.Unmarshal(b, &nr) == nil && nr.Replay.Names != nil {
+		if runNames(o, hx.NewResult(o, "replay"), nr.Replay.Names) {
+			os.Exit(1)
+		}
+		return
 	}
 	var wr struct {
 		Replay struct {
